@@ -48,3 +48,21 @@ Lemma f24_fixed :
   exists toks, lex_all [49; 103; 46; 53] = Done toks [TErr (0, 1) (0, 2) 2] /\
     map t_kind toks = [KIdentifier; KDot; KAbstractLiteral].
 Proof. eexists. split; vm_compute; reflexivity. Qed.
+
+(* the reader on the example: after the 7 characters a, blank, <, =, blank, quote, e-acute (the last
+   is 2 UTF-8 bytes and 1 UTF-16 unit) the state is
+   line 0, character 7, idx 8; it satisfies the invariant and was reached by popping 7 characters *)
+From RH Require Import Text.ReaderInv.
+Lemma reader_example :
+  let d := split_lines example_text in
+  let st := {| r_pos := (0, 7); r_idx := 8 |} in
+  RInv d st /\ run d [97; 32; 60; 61; 32; 34; 233] rstart st /\ get_char d st = GChar 34 /\
+  slice_of_text example_text (0, 0) (0, 7) = [97; 32; 60; 61; 32; 34; 233].
+Proof.
+  cbv zeta. split; [|split; [|split]].
+  - left. exists [97; 32; 60; 61; 32; 34; 233], [34; 10]. split; [reflexivity|]. split; [reflexivity|].
+    split; [reflexivity|]. intro H. cbn in H. repeat (destruct H as [H|H]; [discriminate|]). exact H.
+  - repeat (eapply run_cons; [vm_compute; reflexivity|]). apply run_nil.
+  - vm_compute. reflexivity.
+  - vm_compute. reflexivity.
+Qed.
